@@ -21,7 +21,21 @@ func runThreshold(t *testing.T, rc *RunCtx) {
 	n := 2 + ch.Pick(maxN-1, 0)
 	th := n/2 + 1 + ch.Pick(n-n/2, 0)
 	ids := idSet(rc, ch.Pick(4, 0), n)
-	s := NewSched(rc, SchedCfg{StayBias: []float64{0, 0.4, 0.8}[ch.Pick(3, 0)], MaxSteps: 50000})
+	cfg := SchedCfg{StayBias: []float64{0, 0.4, 0.8}[ch.Pick(3, 0)], MaxSteps: 50000}
+	// A quarter of the runs: once the key exists, storage reads and writes of the instances fail now and then.
+	faultsOn := false
+	if ch.Pick(4, 0) == 3 {
+		den := []int{4, 8, 16}[ch.Pick(3, 0)]
+		cfg.Fault = func(s *Sched, p *Park) Resume {
+			if faultsOn && p.Kind == KPoint && ch.Chance(1, den) {
+				rc.Stats.Inc("fault_store-"+p.Label, 1)
+				return Resume{Err: ErrInjected, Fault: "store-" + p.Label}
+			}
+			return Resume{}
+		}
+		rc.Stats.Inc("runs_with_transient_storage_errors", 1)
+	}
+	s := NewSched(rc, cfg)
 	defer s.Close()
 	c := NewCluster(t, rc, s, ClusterCfg{IDs: ids, Order: ids})
 	defer c.Close()
@@ -167,6 +181,7 @@ func runThreshold(t *testing.T, rc *RunCtx) {
 			plan = append(plan, [2]int{ch.Pick(n, 0), ch.Pick(2, 0)})
 		}
 	}
+	faultsOn = true
 	submit(0, plan)
 	if o := s.Run(); o != "done" {
 		rc.Truncated = o == "truncated"
@@ -205,6 +220,16 @@ func runThreshold(t *testing.T, rc *RunCtx) {
 	if o := s.Run(); o != "done" {
 		rc.Truncated = o == "truncated"
 		return
+	}
+	if cfg.Fault != nil {
+		// A client whose requests failed repeats them, twice more, everywhere.
+		for round := 2; round <= 3; round++ {
+			submit(round, plan2)
+			if o := s.Run(); o != "done" {
+				rc.Truncated = o == "truncated"
+				return
+			}
+		}
 	}
 	// Count valid partial signatures per duty, one per instance.
 	signers := [2]map[*Node][]byte{{}, {}}
